@@ -259,4 +259,5 @@ RULES = [
     ("R-C16-4", "the dispatcher starts a handler for every live `.register` frame", r4),
     ("R-C16-5", "a later .register (replacement) or .unregister of its own name stops the running instance", r5),
     ("R-C16-6", "the handler dispatcher keeps serving: following subscription, threshold ends replay, the live loop ends only with the stream (shared with R-C17-6)", lambda run: __import__("rules.C17", fromlist=["x"]).rule_dispatcher_shape(run, ("xs::handlers::serve",))),
+    ("R-C16-7", "`.unregistered` announcements are persistent frames (default TTL), so a stopped instance stays stopped across restarts (shared with R-C17-8)", lambda run: __import__("rules.C17", fromlist=["x"]).rule_lifecycle_frames_persist(run)),
 ]
